@@ -5,9 +5,11 @@
 cd /repo && [ -z "$(git status --porcelain)" ] || { echo "/repo not clean"; exit 2; }
 out=/verif/harmless/RESULTS.tsv; : > $out.tmp
 hs=${@:-$(ls /verif/harmless | grep -E '^H[0-9]+-[0-9]+$' | sort -V)}
+# PROPS="C01 C07" restricts the sweep to some properties (results of the others are kept)
+props=${PROPS:-$(for i in $(seq -w 1 20); do echo C$i; done)}
 for h in $hs; do
   git -C /repo apply /verif/harmless/$h/patch.diff || { echo -e "$h\t-\tpatch-does-not-apply" >> $out.tmp; continue; }
-  for i in $(seq -w 1 20); do c=C$i
+  for c in $props; do
     r=$(cd /verif && ./check $c quick 2>&1 | grep -E "^VIOLATION|^OK" | head -1)
     case "$r" in
       *no-failing-input-found*) o="tie broken (no-failing-input-found)";;
@@ -20,5 +22,5 @@ for h in $hs; do
   done
   git -C /repo checkout -- . && git -C /repo clean -fdq src static-metric proto
 done
-( [ -f $out ] && grep -v -F -f <(cut -f1 $out.tmp | sort -u | sed "s/$/\t/") $out; cat $out.tmp ) | sort -V > $out.new; mv $out.new $out; rm -f $out.tmp
-for i in $(seq -w 1 20); do (cd /verif && ./check C$i quick >/dev/null 2>&1); done
+( [ -f $out ] && grep -v -F -f <(cut -f1,2 $out.tmp | sort -u | sed "s/$/\t/") $out; cat $out.tmp ) | sort -V > $out.new; mv $out.new $out; rm -f $out.tmp
+for c in $props; do (cd /verif && ./check $c quick >/dev/null 2>&1); done
